@@ -27,6 +27,11 @@ far too many for a scalar kernel loop.  Two reductions make it a one-minute comp
 Cost: the kernel keeps every intermediate 3.6 kB number in the reduction cache of the declaration
 being checked (≈ 12 GB over all of them), hence the four-error evaluation is cut into 7 declarations
 of ≈ 2 GB each, checked sequentially (`Elab.async false`).
+
+Remark (evaluated, not needed for the theorems): the bound 89 is sharp for this method — the same
+checker with budget 89 instead of 88 (`loopK3 bStp bTst bP2 bP 87 89 bStart`) evaluates to `false`,
+i.e. some 4-symbol error in a 90-symbol data part is undetected, as BIP-173 says.  The three-error
+checker still evaluates to `true` with budget 1022 (2 minutes, 7 GB); only 255 is used here.
 -/
 import BipVerif.Lemmas.BechDistance
 
